@@ -161,7 +161,9 @@ impl<'a> LoweringManager<'a> {
     // For closure functions (first param named "_this"), get the explicit type name.
     // This is needed for call_indirect to work correctly - the function's type must
     // match the type used in call_indirect exactly.
-    let type_name = if function.parameters.first() == Some(&PStr::UNDERSCORE_THIS) {
+    let type_name = if function.parameters.first().is_some_and(|p| {
+      super::mir_tail_recursion_rewrite::is_context_parameter(instance.type_cx.heap, p)
+    }) {
       Some(instance.type_cx.lower_function_type(&function.type_))
     } else {
       None
@@ -427,6 +429,17 @@ impl<'a> LoweringManager<'a> {
           .map(|it| {
             let t = self.type_cx.lower(&it.type_);
             let e = self.lower_expr(&it.initial_value);
+            // A type-erased context parameter (ref eq) that starts a loop variable of a concrete
+            // reference type needs a downcast, as in a direct call.
+            let e = match &it.initial_value {
+              lir::Expression::Variable(n, _)
+                if self.local_variables.get(n).copied() == Some(wasm::Type::Eq)
+                  && it.type_.is_id() =>
+              {
+                wasm::InlineInstruction::Cast { pointer_type: it.type_.clone(), value: Box::new(e) }
+              }
+              _ => e,
+            };
             wasm::Instruction::Inline(self.set(it.name, t, e))
           })
           .collect_vec();
